@@ -79,3 +79,17 @@ CLAIMED["C09"] = {
             "obvious induction and is exercised, not separately stated.",
     "technique": "Lean 4 theorems (provenance invariants, exact integer arithmetic) + bit-exact differential correspondence + independent oracle",
 }
+
+CLAIMED["C14"] = {
+    "text": "Proof. Lean theorems: a completed peer exchange hands the filter exactly ((t4'-t1)-(t3'-t2))/2 (Spec.peerDelay, `fixed` "
+            "division semantics), stamped t4', for every timestamp and correction value; a Pdelay_Resp or follow-up for the current "
+            "request from a second device (before or after the measurement) makes the port Faulty with the peer state untouched - the "
+            "later response is not used - and timestamps are only ever stored into an exchange whose responder is unknown or the same "
+            "(classify_false_iff); a Faulty port emits no Announce/Sync/Follow_Up/Delay_Resp, hands no sync/delay measurement to a "
+            "filter, is excluded from Ebest, is left alone by every BMCA decision and by the receipt timeout; the next completed "
+            "exchange returns it to Listening with a fresh servo. Two genuine defects found by the oracle (Faulty left without a clean "
+            "exchange) were repaired by fix: commits.",
+    "note": "Trusted: Lean kernel; Spec/Formulas.lean; generators. Provenance of the stored peer timestamps over whole histories is "
+            "argued from classify_false_iff + the store definition, and checked by the independent oracle; it is not a single theorem.",
+    "technique": "Lean 4 theorems (case analysis, exact integer arithmetic) + differential correspondence + independent oracles",
+}
